@@ -784,7 +784,31 @@ func (e *Engine) localModSet(f *ssa.Function) (*ModSet, map[*ssa.Function]bool) 
 						edges[callee] = true
 					} else {
 						// external: may write through slices / pointers passed
+						readOnly := callee.Pkg != nil && callee.Pkg.Pkg.Path() == "sync/atomic" && strings.HasPrefix(callee.Name(), "Load")
 						for _, a := range c.Args {
+							if readOnly {
+								break
+							}
+							// the address of a field, slice element or global handed to an external function
+							// (sync/atomic.AddUint32(&s.Current, 1)): the write goes to THAT location
+							switch x := a.(type) {
+							case *ssa.FieldAddr:
+								if st, ok := deref(x.X.Type()).Underlying().(*types.Struct); ok {
+									ft := st.Field(x.Field).Type()
+									if !isStruct(ft) {
+										ms.add(fieldHeapName(deref(x.X.Type()), x.Field), arrSort(SInt, U.sortOf(ft)), ft)
+									}
+								}
+							case *ssa.IndexAddr:
+								if pt, ok := x.Type().Underlying().(*types.Pointer); ok {
+									hn, hs := U.elemHeapT(pt.Elem())
+									ms.add(hn, hs, pt.Elem())
+								}
+							case *ssa.Global:
+								if pt, ok := x.Type().Underlying().(*types.Pointer); ok {
+									ms.add("G|"+x.String(), U.sortOf(pt.Elem()), pt.Elem())
+								}
+							}
 							switch t := a.Type().Underlying().(type) {
 							case *types.Slice:
 								hn, hs := U.elemHeapT(t.Elem())
